@@ -1874,7 +1874,9 @@ def pretty_str(s, ctx, split_pattern=None):
             pattern=split_pattern,
         ))
 
-        if len(lines) == 1:
+        if len(lines) <= 1:
+            # No lines at all means an empty string that didn't
+            # fit the available width.
             return flat_version
 
         parts = intersperse(
